@@ -15,6 +15,27 @@
   refuses anything but exactly the one coin being bonded (`validate_funds`).  `Op.coins payer asset amount op`
   = `op` sent with `amount` of `asset` attached by `payer` (nested `coins` = several coins); `asset` may
   be any index, also one that is no asset of the world (an unrelated denom: index `nassets`).
+
+  SWAPS THAT FAIL FOR REASONS OUTSIDE THE MODEL.  The router executes the collector's aggregation swaps with
+  `max_spread: 50 %`; a pair refuses a swap whose spread exceeds that (an amount of the size of the pair's
+  reserve), and at the top of the u128 range its arithmetic can overflow.  Reserves are not part of this
+  model, so WHETHER a swap the collector sends goes through is recorded from the real transaction, like the
+  router's outputs: `Op.xfail code op` = `op` (a `NewEpoch` or a direct `AggregateFees`) in a transaction
+  whose swap execution failed (`code` 1 = `Err`, 2 = panic): it fails iff it sends at least one swap message,
+  otherwise it is `op`.
+
+  RE-ENTRANCY.  A registered pair / vault need not be an honest contract (the factories instantiate whatever
+  code id their owner configured).  `Op.reenter trig caught inner outer` = the transaction of `outer` in which a
+  hostile registered contract, when the collector (or the router on the collector's behalf) calls it, sends
+  `inner` ONCE before it returns: `trig` says which call (`CollectProtocolFees` of pair / vault `k`, `Swap` of
+  pair `k` as a hop of an aggregation route), `caught` whether the hostile contract sent it as a sub-message and
+  swallows its failure (`reply_on: Always`).  The hooked pipeline (`HS`, `fire`, `…H` below) is the message
+  order of the real code: a factory page is read when the `CollectFees` / `AggregateFees` handler runs and its
+  messages then execute in listing order; an aggregation pass decides what to swap (and how much) when its
+  handler runs and the swap messages then execute one by one with the funds decided then; `ForwardFees` stores
+  `TMP_EPOCH`, the collector's reply needs it (`CannotReadEpoch`) and REMOVES it — which is what refuses a
+  `NewEpoch` nested into a `NewEpoch`: the nested one runs the whole pipeline and its reply consumes `TMP_EPOCH`,
+  so the outer reply fails and the whole transaction (both epochs) reverts.
 -/
 import WW.Model.Distributor
 import WW.Model.Collector
@@ -42,6 +63,16 @@ structure St where
       `xb 1` = the whale lair.  Only stray coins ever land there. -/
   xb : Nat → Nat → Nat
 
+/-- which call of a hostile registered contract triggers the nested message -/
+inductive Trig where
+  /-- `CollectProtocolFees` sent to pair `k` -/
+  | poolCollect (k : Nat)
+  /-- `CollectProtocolFees` sent to vault `k` -/
+  | vaultCollect (k : Nat)
+  /-- `Swap` sent to pair `k` by the router while it executes an aggregation route of the collector -/
+  | poolSwap (k : Nat)
+deriving Repr, DecidableEq
+
 inductive Op where
   | newEpoch (now : Nat) (router : Nat → Nat → Nat → Nat) (acc : Nat → Nat → Nat)
   | claim (u : Nat) (ans : Nat → Distributor.LairAns)
@@ -66,6 +97,16 @@ inductive Op where
   | aggregate (sender : Nat) (f : Collector.FeesFor) (router : Nat → Nat → Nat → Nat) (acc : Nat → Nat → Nat)
   /-- the message of `op` sent with `amount` of `asset` attached (`info.funds`), paid by `payer` -/
   | coins (payer asset amount : Nat) (op : Op)
+  /-- `op` in a transaction whose swap execution failed for a reason outside the model (spread above the
+      collector's 50 % cap, arithmetic overflow in a pair): `code` 1 = `Err`, 2 = panic -/
+  | xfail (code : Nat) (op : Op)
+  /-- `outer` with a hostile registered contract that sends `inner` once when called (see the header).
+      `hacc pre stage asset` = the protocol fees `(pair, side, amount)` that the OUTER operation's swap of `asset` in
+      aggregation pass `stage` left pending in the pairs it went through, as recorded — `pre = 1`: by the hops
+      before the hostile pair fired, `pre = 0`: by the other hops.  (Inside such a transaction it matters WHEN a fee
+      accrues: a nested collection picks up what earlier swaps of the same transaction left.  The `acc` carried by
+      `outer` itself — the same fees summed over the transaction — is not used then.) -/
+  | reenter (trig : Trig) (caught : Bool) (hacc : Nat → Nat → Nat → List (Nat × Nat × Nat)) (inner outer : Op)
 
 /-- the contract an operation's message is addressed to -/
 inductive Target where
@@ -96,10 +137,24 @@ def target : Op → Target
   | .unreg .. => .nobody
   | .toggle .. => .nobody
   | .coins _ _ _ op => target op
+  | .xfail _ op => target op
+  | .reenter _ _ _ _ outer => target outer
 
 def isCoins : Op → Bool
   | .coins .. => true
+  | .xfail .. => true
+  | .reenter .. => true
   | _ => false
+
+/-- the operation contains a `NewEpoch` (a nested one, when it succeeds, consumes the collector's `TMP_EPOCH`) -/
+def hasNewEpoch : Op → Bool
+  | .newEpoch .. => true
+  | .coins _ _ _ op => hasNewEpoch op
+  | .xfail _ op => hasNewEpoch op
+  | .reenter _ _ _ inner outer => hasNewEpoch inner || hasNewEpoch outer
+  | _ => false
+
+def failCode {α : Type} (code : Nat) : Res α := if code = 2 then .panic else .err
 
 /-- the collector's configuration / state as it sees them now: `query_distribution_asset` asks the
     distributor for its CURRENT `distribution_asset` on every aggregation and in the reply, and the router
@@ -178,6 +233,254 @@ def newEpoch (cfg : Cfg) (s : St) (now : Nat) (router : Nat → Nat → Nat → 
   | .err => .err
   | .panic => .panic
 
+/-- does the plain `op` (a `NewEpoch` / a direct `AggregateFees`) send at least one swap message? -/
+def sendsSwaps (cfg : Cfg) (s : St) : Op → Bool
+  | .newEpoch now router acc =>
+    match newEpoch cfg s now router acc with
+    | .ok (_, o) => !o.swaps.isEmpty
+    | _ => false
+  | .aggregate sender f router acc =>
+    match Collector.aggregateFees (ccfg cfg s) (cview s) sender f router acc with
+    | .ok (_, _, sws) => !sws.isEmpty
+    | _ => false
+  | _ => false
+
+/-! ### the hooked pipeline: a hostile registered pair / vault sends a message of its own when it is called -/
+
+/-- the nested message of the hostile contract -/
+structure Hook where
+  trig : Trig
+  /-- sent as a sub-message whose failure the hostile contract swallows (`reply_on: Always`) -/
+  caught : Bool
+  /-- when it succeeds it has removed the collector's `TMP_EPOCH` (it contains a `NewEpoch`) -/
+  clears : Bool
+  /-- the nested operation, on the joint state as it is when the hostile contract is called -/
+  run : St → Res St
+  /-- protocol fees accrued by the outer operation's own swaps, per swap (see `Op.reenter`) -/
+  hacc : Nat → Nat → Nat → List (Nat × Nat × Nat)
+
+/-- the joint state INSIDE a transaction -/
+structure HS where
+  s : St
+  /-- the hostile contract has not sent its message yet (it sends it once) -/
+  armed : Bool
+  /-- 0 = the hostile contract was not triggered, 1 = its message went through, 2 = it was refused and the
+      hostile contract swallowed the failure -/
+  fired : Nat
+  /-- the collector's `TMP_EPOCH`: id and start time of the epoch being created -/
+  tmp : Option (Nat × Nat)
+  /-- the swap messages the OUTER operation has executed so far `(stage, asset, amount in)` -/
+  sws : List (Nat × Nat × Nat)
+
+def HS.start (s : St) : HS := { s := s, armed := true, fired := 0, tmp := none, sws := [] }
+
+/-- the hostile contract is being called: if it has not done so yet it sends its message.  A nested message
+    that fails fails the transaction unless the hostile contract catches it — then NOTHING of it remains
+    (CosmWasm reverts the sub-call) and the outer transaction goes on, `TMP_EPOCH` included. -/
+def fire (hk : Hook) (h : HS) : Res HS :=
+  if h.armed = true then
+    match hk.run h.s with
+    | .ok s' => .ok { h with s := s', armed := false, fired := 1, tmp := if hk.clears = true then none else h.tmp }
+    | .err => if hk.caught = true then .ok { h with armed := false, fired := 2 } else .err
+    | .panic => .panic
+  else .ok h
+
+/-- `CollectProtocolFees` sent to every pair / vault selected by `l` -/
+def colPools (l : Collector.Pool → Bool) (s : St) : St :=
+  { s with c := { s.c with bal := Collector.collectPools l s.c.pools s.c.bal, pools := Collector.poolsAfter l s.c.pools } }
+def colVaults (l : Collector.Vault → Bool) (s : St) : St :=
+  { s with c := { s.c with bal := Collector.collectVaults l s.c.vaults s.c.bal, vaults := Collector.vaultsAfter l s.c.vaults } }
+
+/-- `CollectFees` for the pool factory's page `l` (read when the handler runs): one `CollectProtocolFees` per
+    listed pair IN LISTING ORDER (ascending key); the hostile pair `k`, when its turn comes, fires -/
+def collectPoolsH (hk : Hook) (l : Collector.Pool → Bool) (h : HS) : Res HS :=
+  match hk.trig with
+  | .poolCollect k =>
+    match h.s.c.pools[k]? with
+    | some hp =>
+      if l hp = true then
+        match fire hk { h with s := colPools (fun p => l p && Collector.keyLt (Collector.poolKey p) (Collector.poolKey hp)) h.s } with
+        | .ok h1 => .ok { h1 with s := colPools (fun p => l p && !Collector.keyLt (Collector.poolKey p) (Collector.poolKey hp)) h1.s }
+        | .err => .err
+        | .panic => .panic
+      else .ok { h with s := colPools l h.s }
+    | none => .ok { h with s := colPools l h.s }
+  | _ => .ok { h with s := colPools l h.s }
+
+/-- the same for the vault factory's page (a vault's key is its asset's label: ascending asset index) -/
+def collectVaultsH (hk : Hook) (l : Collector.Vault → Bool) (h : HS) : Res HS :=
+  match hk.trig with
+  | .vaultCollect k =>
+    match h.s.c.vaults[k]? with
+    | some hv =>
+      if l hv = true then
+        match fire hk { h with s := colVaults (fun v => l v && decide (v.asset < hv.asset)) h.s } with
+        | .ok h1 => .ok { h1 with s := colVaults (fun v => l v && !decide (v.asset < hv.asset)) h1.s }
+        | .err => .err
+        | .panic => .panic
+      else .ok { h with s := colVaults l h.s }
+    | none => .ok { h with s := colVaults l h.s }
+  | _ => .ok { h with s := colVaults l h.s }
+
+/-- a directly sent `CollectFees` -/
+def collectH (hk : Hook) (f : Collector.FeesFor) (h : HS) : Res HS :=
+  match f with
+  | .vaultFactory lim => collectVaultsH hk (Collector.vaultListed h.s.c.vaults (Collector.vaultPage lim)) h
+  | .poolFactory lim => collectPoolsH hk (Collector.poolListed h.s.c.pools (Collector.poolPage lim)) h
+  | .wrongFactory => .err
+  | .onePool k =>
+    match (if hk.trig = .poolCollect k ∧ (h.s.c.pools[k]?).isSome = true then fire hk h else .ok h) with
+    | .ok h1 =>
+      match Collector.collectFees h1.s.c 0 (.onePool k) with
+      | .ok c' => .ok { h1 with s := { h1.s with c := c' } }
+      | .err => .err
+      | .panic => .panic
+    | .err => .err
+    | .panic => .panic
+  | .oneVault k =>
+    match (if hk.trig = .vaultCollect k ∧ (h.s.c.vaults[k]?).isSome = true then fire hk h else .ok h) with
+    | .ok h1 =>
+      match Collector.collectFees h1.s.c 0 (.oneVault k) with
+      | .ok c' => .ok { h1 with s := { h1.s with c := c' } }
+      | .err => .err
+      | .panic => .panic
+    | .err => .err
+    | .panic => .panic
+
+/-- protocol fees `(pair, side, amount)` left pending by a swap: side 0 = the pair's first asset -/
+def accrue : List (Nat × Nat × Nat) → List Collector.Pool → List Collector.Pool
+  | [], ps => ps
+  | (k, side, x) :: r, ps =>
+    accrue r (modPool k (fun p => if side = 0 then { p with pa := p.pa + x } else { p with pb := p.pb + x }) ps)
+
+def accrueS (l : List (Nat × Nat × Nat)) (s : St) : St := { s with c := { s.c with pools := accrue l s.c.pools } }
+
+/-- the route `hops` passes through the registered pair `k` -/
+def viaPool (ps : List Collector.Pool) (k : Nat) (hops : List (Nat × Nat)) : Bool :=
+  match ps[k]? with
+  | some hp => hp.reg && hops.any fun x => (min x.1 x.2, max x.1 x.2) == Collector.poolKey hp
+  | none => false
+
+/-- executing the route `hops` calls the `Swap` of the hostile pair the trigger names -/
+def swapTriggers (t : Trig) (ps : List Collector.Pool) (hops : List (Nat × Nat)) : Bool :=
+  match t with
+  | .poolSwap k => viaPool ps k hops
+  | _ => false
+
+/-- what an `AggregateFees` handler decides to swap — `(asset, amount, hops)` for every candidate above the
+    minimum whose registered route simulates — from the balances, pairs, routes and distribution asset AS THEY
+    ARE WHEN THE HANDLER RUNS; the swap messages carry these amounts and operations -/
+def aggPlan (s : St) (cands : List Nat) : List (Nat × Nat × List (Nat × Nat)) :=
+  (cands.filter fun i => decide (Collector.AGG_T < s.c.bal i) && Collector.simOk s.c.pools (s.rts s.d.dist i)).map
+    fun i => (i, s.c.bal i, s.rts s.d.dist i)
+
+/-- the swap messages of one aggregation pass, one by one: the bank moves the planned amount to the router (it
+    must still be there), the router executes the hops (each pair must accept swaps; the hostile pair, when it
+    is a hop, fires before it pays), then pays the collector in `dist` -/
+def aggExecH (hk : Hook) (dist : Nat) (router : Nat → Nat → Nat → Nat) (stage : Nat) :
+    List (Nat × Nat × List (Nat × Nat)) → HS → Res HS
+  | [], h => .ok h
+  | (i, amt, hops) :: rest, h =>
+    if h.s.c.bal i < amt then .err
+    else if Collector.execOk h.s.c.pools hops = false then .err
+    else
+      -- the funds leave the collector; the hops before the hostile pair accrue their fees; it fires; the others
+      match (if swapTriggers hk.trig h.s.c.pools hops = true
+             then fire hk { h with s := accrueS (hk.hacc 1 stage i)
+                                          { h.s with c := { h.s.c with bal := Collector.upd h.s.c.bal i (h.s.c.bal i - amt) } },
+                                   sws := h.sws ++ [(stage, i, amt)] }
+             else .ok { h with s := accrueS (hk.hacc 1 stage i)
+                                      { h.s with c := { h.s.c with bal := Collector.upd h.s.c.bal i (h.s.c.bal i - amt) } },
+                               sws := h.sws ++ [(stage, i, amt)] }) with
+      | .ok h2 =>
+        aggExecH hk dist router stage rest
+          { h2 with s := accrueS (hk.hacc 0 stage i)
+                           { h2.s with c := { h2.s.c with bal := Collector.add h2.s.c.bal dist (router stage i amt) } } }
+      | .err => .err
+      | .panic => .panic
+
+/-- a directly sent `AggregateFees` -/
+def aggregateH (cfg : Cfg) (hk : Hook) (f : Collector.FeesFor) (router : Nat → Nat → Nat → Nat) (h : HS) : Res HS :=
+  match Collector.aggCands (ccfg cfg h.s) (cview h.s) f with
+  | none => .err
+  | some cands =>
+    match aggExecH hk h.s.d.dist router 0 (aggPlan h.s cands) h with
+    | .ok h1 =>
+      .ok { h1 with s := { h1.s with c := { h1.s.c with routes := h1.s.rts h1.s.d.dist } } }
+    | .err => .err
+    | .panic => .panic
+
+/-- the collector's reply (take rate, transfer, `TMP_EPOCH` read AND REMOVED) followed by the distributor's -/
+def replyH (h : HS) : Res HS :=
+  match h.tmp with
+  | none => .err                                                -- CannotReadEpoch
+  | some (id, start) =>
+    if Collector.takeOf h.s.c (h.s.c.bal h.s.d.dist) ≤ h.s.c.bal h.s.d.dist then
+      match Distributor.receiveEpoch h.s.d id start
+          (if h.s.c.bal h.s.d.dist - Collector.takeOf h.s.c (h.s.c.bal h.s.d.dist) = 0 then none
+           else some (h.s.c.bal h.s.d.dist - Collector.takeOf h.s.c (h.s.c.bal h.s.d.dist))) with
+      | .ok d' =>
+        .ok { h with
+              s := { h.s with
+                     d := d',
+                     c := { h.s.c with
+                            bal := Collector.upd h.s.c.bal h.s.d.dist 0,
+                            dao := h.s.c.dao + Collector.takeOf h.s.c (h.s.c.bal h.s.d.dist),
+                            trh := if Collector.takeOf h.s.c (h.s.c.bal h.s.d.dist) = 0 then h.s.c.trh
+                                   else h.s.c.trh ++ [(id, Collector.takeOf h.s.c (h.s.c.bal h.s.d.dist))],
+                            routes := h.s.rts h.s.d.dist },
+                     daoBal := Collector.add h.s.daoBal h.s.d.dist (Collector.takeOf h.s.c (h.s.c.bal h.s.d.dist)) },
+              tmp := none }
+      | .err => .err
+      | .panic => .panic
+    else .err
+
+/-- `NewEpoch` with the hostile contract on one of the factory pages / aggregation routes -/
+def newEpochH (cfg : Cfg) (hk : Hook) (s : St) (now : Nat) (router : Nat → Nat → Nat → Nat) : Res HS :=
+  match Distributor.nextEpoch cfg.d s.d now with
+  | .ok (id, start) =>
+    -- ForwardFees (sent by the distributor): TMP_EPOCH := the new epoch; then the four self-calls
+    match collectVaultsH hk (Collector.vaultListed s.c.vaults (Collector.vaultPage Collector.FWD_LIMIT))
+        { s := s, armed := true, fired := 0, tmp := some (id, start), sws := [] } with
+    | .ok h1 =>
+      match collectPoolsH hk (Collector.poolListed h1.s.c.pools (Collector.poolPage Collector.FWD_LIMIT)) h1 with
+      | .ok h2 =>
+        match aggExecH hk h2.s.d.dist router 0
+            (aggPlan h2.s (Collector.vaultAssets (ccfg cfg h2.s)
+              (Collector.vaultListed h2.s.c.vaults (Collector.vaultPage Collector.FWD_LIMIT)) h2.s.c.vaults)) h2 with
+        | .ok h3 =>
+          match aggExecH hk h3.s.d.dist router 1
+              (aggPlan h3.s (Collector.poolAssets (ccfg cfg h3.s)
+                (Collector.poolListed h3.s.c.pools (Collector.poolPage Collector.FWD_LIMIT)) h3.s.c.pools)) h3 with
+          | .ok h4 => replyH h4
+          | .err => .err
+          | .panic => .panic
+        | .err => .err
+        | .panic => .panic
+      | .err => .err
+      | .panic => .panic
+    | .err => .err
+    | .panic => .panic
+  | .err => .err
+  | .panic => .panic
+
+/-- the operations in which the collector calls registered pairs / vaults, with the hostile contract's hook;
+    `none` = `op` is none of them (the hostile contract is not called) -/
+def stepH (cfg : Cfg) (hk : Hook) (s : St) : Op → Option (Res HS)
+  | .newEpoch now router _ => some (newEpochH cfg hk s now router)
+  | .collect _ f => some (collectH hk f (HS.start s))
+  | .aggregate _ f router _ => some (aggregateH cfg hk f router (HS.start s))
+  | .coins payer a x op =>
+    match pay cfg s payer a x (target op) with
+    | .ok s1 => stepH cfg hk s1 op
+    | .err => some .err
+    | .panic => some .panic
+  | .xfail code op =>
+    match stepH cfg hk s op with
+    | some (.ok h) => if h.sws.isEmpty then some (.ok h) else some (failCode code)
+    | r => r
+  | _ => none
+
 def step (cfg : Cfg) (s : St) : Op → Res St
   | .newEpoch now router acc =>
     match newEpoch cfg s now router acc with
@@ -253,6 +556,19 @@ def step (cfg : Cfg) (s : St) : Op → Res St
     | .ok s1 => step cfg s1 op
     | .err => .err
     | .panic => .panic
+  | .xfail code op =>
+    -- the swap execution failed in the real transaction: `op` fails iff it sends a swap message at all
+    match step cfg s op with
+    | .ok s' => if sendsSwaps cfg s op = true then failCode code else .ok s'
+    | .err => .err
+    | .panic => .panic
+  | .reenter trig caught hacc inner outer =>
+    match stepH cfg { trig := trig, caught := caught, clears := hasNewEpoch inner, run := fun s1 => step cfg s1 inner,
+                      hacc := hacc } s outer with
+    | some (.ok h) => .ok h.s
+    | some .err => .err
+    | some .panic => .panic
+    | none => step cfg s outer
 
 /-- fold a history of the joint machine; failed operations leave the state unchanged -/
 def reach (cfg : Cfg) (s : St) : List Op → St
